@@ -2,6 +2,7 @@ import Larking.Gen.Skel
 import Larking.Gen.Missing
 import Larking.Expected.C08
 import Larking.Lemmas.Streams
+import Larking.Model.Ws
 /-
   C08 — Message size limits on every protocol.  For each receive path: over the limit ⇒ an
   error (never a message); within the limit ⇒ delivered; sizes up to 2^64-1 where a length
@@ -88,6 +89,53 @@ theorem grpc_send_limit (maxSend : Nat) (payload : Bytes) :
     (payload.length > maxSend → grpcSend none maxSend payload = none) :=
   Streams.grpc_send_limit maxSend payload
 
+/-! ### WebSocket (`streamWS.RecvMsg`, `Model/Ws`) -/
+open Larking.Ws in
+/-- a client message longer than the receive limit is refused and never reaches the handler … -/
+theorem ws_over_limit_refused (maxRecv : Nat) (hpos : 0 < maxRecv) (decodes) (b : Bytes) (rest : List Ws.Frame)
+    (h : maxRecv < b.length) : recv ⟨true, maxRecv⟩ decodes (.data b :: rest) = (.tooLarge, rest) := by
+  have h1 : decide (maxRecv > 0) = true := by simpa using hpos
+  have h2 : decide (b.length > maxRecv) = true := by simpa using h
+  simp [recv, h1, h2]
+
+open Larking.Ws in
+/-- … one within the limit (or any, when no limit is configured) is delivered as it is. -/
+theorem ws_within_limit_delivered (maxRecv : Nat) (decodes) (b : Bytes) (rest : List Ws.Frame)
+    (h : maxRecv = 0 ∨ b.length ≤ maxRecv) (hd : decodes b = true) :
+    recv ⟨true, maxRecv⟩ decodes (.data b :: rest) = (.msg b, rest) := by
+  have : (decide (maxRecv > 0) && decide (b.length > maxRecv)) = false := by
+    rcases h with h | h
+    · simp [h]
+    · have : ¬ b.length > maxRecv := by omega
+      simp [this]
+  simp [recv, this, hd]
+
+open Larking.Ws in
+/-- **sequence fidelity**: the handler of a WebSocket binding with a body receives exactly the
+client's messages, in order, then the end (the close frame) — each message within the limit. -/
+theorem ws_recv_sequence (maxRecv : Nat) (decodes) (msgs : List Bytes)
+    (hl : ∀ b ∈ msgs, maxRecv = 0 ∨ b.length ≤ maxRecv) (hd : ∀ b ∈ msgs, decodes b = true) (fuel : Nat)
+    (hf : msgs.length < fuel) :
+    Ws.recvAll ⟨true, maxRecv⟩ decodes fuel (msgs.map .data ++ [.closed]) = msgs.map .msg ++ [.err] := by
+  induction msgs generalizing fuel with
+  | nil =>
+    cases fuel with
+    | zero => simp at hf
+    | succ f => simp [Ws.recvAll, recv]
+  | cons b rest ih =>
+    cases fuel with
+    | zero => simp at hf
+    | succ f =>
+      have hr := ws_within_limit_delivered maxRecv decodes b (rest.map .data ++ [.closed]) (hl b (by simp)) (hd b (by simp))
+      simp only [List.map_cons, List.cons_append, Ws.recvAll, hr]
+      rw [ih (fun x hx => hl x (by simp [hx])) (fun x hx => hd x (by simp [hx])) f (by simp at hf; omega)]
+
+open Larking.Ws in
+/-- a binding without a body never reads the connection: every receive yields the message built
+from the URL (a handler that receives in a loop never sees an end — observation in DESIGN §8). -/
+theorem ws_bodyless_reads_nothing (maxRecv : Nat) (decodes) (frames : List Ws.Frame) :
+    recv ⟨false, maxRecv⟩ decodes frames = (.fromURL, frames) := by simp [recv]
+
 end Larking.Props.C08
 
 #print axioms Larking.Props.C08.translator_complete
@@ -101,3 +149,7 @@ end Larking.Props.C08
 #print axioms Larking.Props.C08.grpc_frame_within_limit
 #print axioms Larking.Props.C08.grpc_decompressed_limit
 #print axioms Larking.Props.C08.grpc_send_limit
+#print axioms Larking.Props.C08.ws_over_limit_refused
+#print axioms Larking.Props.C08.ws_within_limit_delivered
+#print axioms Larking.Props.C08.ws_recv_sequence
+#print axioms Larking.Props.C08.ws_bodyless_reads_nothing
